@@ -1499,6 +1499,58 @@ pub fn distinct_states() -> usize {
     STATES.with(|s| s.borrow().len())
 }
 
+/// Abstract state of the whole heap as far as the hooks can see it (coverage / novelty pruning only).
+pub fn current_state_hash(wd: &World) -> u64 {
+    let mut h = vcommon::rng::Fnv::new();
+    let Ok(m) = wd.m.try_borrow() else { return 0 };
+    m.shape_hash(&mut h);
+    let mut seen = HashSet::new();
+    fn visit(n: &Node, m: &Model, seen: &mut HashSet<u32>, h: &mut vcommon::rng::Fnv) {
+        if n.canary_state() != CanaryState::Good || !seen.insert(n.id) {
+            return;
+        }
+        for s in n.t.iter().chain(n.h.iter()) {
+            if let Some(c) = s.borrow().as_ref() {
+                let sn = verif::object_snapshot(c);
+                h.u64(c.id as u64);
+                h.u64(sn.counter as u64 | (sn.tracing_counter as u64) << 16 | (sn.mark as u64) << 32 | (sn.finalized as u64) << 40 | (sn.has_side_record as u64) << 41);
+                let p: *const Node = &**c;
+                visit(unsafe { &*p }, m, seen, h);
+            }
+        }
+    }
+    for c in wd.r.iter().chain(wd.g.iter()) {
+        if let Some(cc) = c.borrow().as_ref() {
+            let s = verif::object_snapshot(cc);
+            h.u64(cc.id as u64);
+            h.u64(s.counter as u64 | (s.tracing_counter as u64) << 16 | (s.mark as u64) << 32 | (s.finalized as u64) << 40 | (s.has_side_record as u64) << 41);
+            let p: *const Node = &**cc;
+            visit(unsafe { &*p }, &m, &mut seen, &mut h);
+        }
+    }
+    if let Some(b) = verif::buffer_walk(64) {
+        for n in &b.nodes {
+            let id = m.boxes.get(&n.addr).map(|r| match r.owner {
+                BoxOwner::Node(i) => i as u64,
+                BoxOwner::Map(i) => 1000 + i as u64,
+                BoxOwner::Unknown => 9999,
+            });
+            h.u64(id.unwrap_or(u64::MAX));
+            h.u64(n.snapshot.tracing_counter as u64 | (n.snapshot.counter as u64) << 16 | (n.snapshot.finalized as u64) << 40);
+        }
+    }
+    // weak registers
+    for (i, t) in m.wr.iter().enumerate() {
+        h.u64(i as u64);
+        h.u64(match t {
+            WT::None => 0,
+            WT::Dangling => 1,
+            WT::To(x) => 2 + *x as u64,
+        });
+    }
+    h.finish()
+}
+
 fn state_hash(wd: &World) {
     let mut h = vcommon::rng::Fnv::new();
     let m = wd.m.borrow();
